@@ -267,8 +267,8 @@ def main(tier):
     K, drop = mirror.c_values('default', ['igzip_lib.h'], [(n, n) for n in ('NO_FLUSH', 'SYNC_FLUSH', 'FULL_FLUSH', 'IGZIP_NO_HIST')], 'c14')
     if drop:
         raise AnalysisBroken('constants missing: %s' % drop)
-    check_marker(rep, mod, K)
-    check_full_flush(rep, mod, K)
-    check_mask_width(rep, mod)
-    check_flush_reaches_int(rep, mod, K)
+    rep.attempt(check_marker, rep, mod, K)
+    rep.attempt(check_full_flush, rep, mod, K)
+    rep.attempt(check_mask_width, rep, mod)
+    rep.attempt(check_flush_reaches_int, rep, mod, K)
     return rep.finish()
